@@ -221,6 +221,28 @@ def bounded(tier, seed):
                 return 'linear profile not reproduced by interpSigma(linear): %r vs %r' % (got.tolist(), (3 - 2 * nzs).tolist())
             return None
         run.case("C17:interpSigma('linear')", (src.tolist(), dst.tolist()), t3)
+    # interpSigma onto a grid defined for ANOTHER model top (vgtop given, 0 included): the source levels are first re-expressed relative
+    # to the new top through pressure (p = sigma * (101325 - top) + top); so the result equals interpolating a file that already carries
+    # the converted levels and the new top
+    for V, W in ((5000., 0.), (5000., 10000.), (0., 5000.), (5000., 5000.), (10000., 0.)):
+        for itype in ('conserve', 'linear'):
+            def t5(V=V, W=W, itype=itype):
+                src = np.array([1., .98, .9, .7, .4, 0.], 'f')
+                conv = ((src.astype('d') * (101325. - V) + V - W) / (101325. - W)).astype('f')
+                dst = conv[[0, 2, 4, 5]].copy() if itype == 'conserve' else ((conv[:-1] + conv[1:]) / 2).astype('f')
+                f1 = IO.make_ioapi(P, nt=1, nz=5, ny=2, nx=2, seed=seed)
+                f1.VGLVLS, f1.VGTOP = src, np.float32(V)
+                f1.updatemeta()
+                f2 = IO.make_ioapi(P, nt=1, nz=5, ny=2, nx=2, seed=seed)
+                f2.VGLVLS, f2.VGTOP = conv, np.float32(W)
+                f2.updatemeta()
+                g1 = f1.interpSigma(dst, vgtop=W, interptype=itype)
+                g2 = f2.interpSigma(dst, vgtop=W, interptype=itype)
+                a, b = np.asarray(g1.variables['V0'][...], 'd'), np.asarray(g2.variables['V0'][...], 'd')
+                if a.shape != b.shape or not np.allclose(a, b, rtol=2e-4, atol=1e-6):
+                    return 'interpSigma(vgtop=%r, %s) on a file with VGTOP=%r differs from interpolating the file with the levels already converted: %r vs %r' % (W, itype, V, a[0, :, 0, 0].tolist(), b[0, :, 0, 0].tolist())
+                return None
+            run.case('C17:interpSigma with another model top', (V, W, itype), t5)
     # interpDimension along every dimension of 1-4-D variables
     for spec in H.file_specs(tier, seed)[:2]:
         f = H.make_file(P, spec)
